@@ -1,4 +1,5 @@
 """C15 - Route counters and prefix limits always match the RIB's real contents."""
+import drvlib
 import ribcheck
 from ribcheck import Cfg, NO_DEFER, NO_LLGR, ALL_OPS
 
@@ -34,6 +35,8 @@ def main(c):
         ]
     ribcheck.run(c, "C15", ("c15.", "state.stats"), design, walks, INV, nwalks=4000 if thorough else 600, depth=50,
                  edge_cfgs=edge)
+    if not c.violations:
+        drvlib.session_limits(c)
     c.assumptions += [
         "recount convention (fixed by the repository's own test addpath_peer_stats_counts_prefixes_not_paths): received = prefixes "
         "with at least one path from the peer, accepted = unfiltered paths from the peer; the prefix-limit counter is per "
